@@ -85,6 +85,7 @@ func main() {
 		os.Exit(2)
 	}
 	c := NewCollector(*prop)
+	os.Setenv("HARNESS_OUT", *out)
 	run(c, NewRng(*seed), *tier == "thorough")
 	// anomalies noticed by the shared decoding helper (every key the run decodes is also decoded into one reused
 	// Key variable): reported under the property that is being checked
